@@ -14,6 +14,16 @@ CHECKS = {
  'C09': ('exploration', 'Gate-driven enumeration of the ready-sets of one event loop per wake-up plus stress scenarios (wide fans, aliases, contending invocations, crossed orders, random parallel histories); oracle: no abort, no confirmed stuck state, exit 0 when all scripts succeed, tokens conserved on gate paths.', '4/C09', 'select()-gate schedule enumeration + stress with panic/stuck/exit monitors'),
  'C11': ('exploration', 'Fingerprints (inode, size, mtime, bytes) of user-owned files around every command, trace-level proof that their scripts never ran, content oracle for dependents, rebuild after removal, override warning.', '4/C11', 'file fingerprint monitor + ownership automaton over generated histories'),
  'C14': ('exploration', 'Executed multiset per command vs reference model for ifcreate watchers and always nodes, plus error probes for redo-ifcreate.', '4/C14', 'trace vs reference model, ifcreate/always-biased generator'),
+ 'C04': ('exploration', 'Exhaustive product of script behaviours x output sizes x prior target states, one command each, with an inotify event log, a concurrent reader and a strace-attributed subset; expected post-state is known from the generator.', '4/C04', 'behaviour-product enumeration with inotify/strace/reader monitors'),
+ 'C06': ('exploration', 'Order monitor over the unified trace (overlapping S..E intervals per target, lock released before script end, build decision before the previous result is recorded) under contending invocations with injected delays.', '4/C06', 'trace order monitor + hook-event monitor under contention and delay injection'),
+ 'C07': ('exploration', 'Twin replay: same pre-history in two sandboxes, then serial vs scheduled run; compares files, exit status and a normalised database; per-run execution counts from the trace.', '4/C07', 'serial-vs-parallel twin comparison (files, status, normalised DB) with delay injection'),
+ 'C08': ('exploration', 'Harness-owned jobserver pipe byte accounting, work-section overlap from the trace, on-exit token self-check, per-process token ledger from hook events.', '4/C08', 'token conservation ledger (pipe bytes + hook events) and overlap monitor'),
+ 'C10': ('fault_enumeration', 'LD_PRELOAD shim kills one process or the whole tree immediately before every state-changing libc call of a build; recovery protocol judged by content oracle.', '4/C10', 'crash-point enumeration (LD_PRELOAD kill shim) + recovery oracle'),
+ 'C12': ('exploration', 'Systematic product of cycle length x prefix x siblings x entry node x -j x re-run; stuck detector and exit-status oracle.', '4/C12', 'cycle scenario enumeration with stuck detector'),
+ 'C13': ('exploration', 'Independent reference of candidate order and $1/$2/$3/cwd compared with redo-whichdo, with what the executed script echoes, and with possible_do_files called directly; add/remove mutation step.', '4/C13', 'differential against an independent reference (commands + direct calls)'),
+ 'C15': ('exploration', 'Exhaustive small-alphabet enumeration of the exported path functions against an independent reference and the kernel, Miri on a subset, command-level spelling pairs against Files rows and the trace.', '4/C15', 'exhaustive direct-call differential + Miri + command-level alias monitor'),
+ 'C16': ('exploration', 'Barrier-released concurrent invocations (builds and queries, existing and fresh projects) with delay injection; exit status/error text, integrity_check, row presence.', '4/C16', 'concurrent invocation stress with DB integrity and row-presence monitors'),
+ 'C18': ('exploration', 'Unique-id lines written by scripts are matched against the live raw log stream and redo-log replay; parse/format round trips of Meta called directly (exhaustive small + random + Miri).', '4/C18', 'exactly-once/in-order log monitor + direct round-trip enumeration'),
  'C17': ('exploration', 'Model lower/upper bounds on redo-ood, role checks on redo-targets/redo-sources against the database and the file system, and a twin replay with/without the queries.', '4/C17', 'query output vs model bounds + differential twin replay'),
 }
 
